@@ -6,7 +6,8 @@ CONSTANTS
   DT = 2
   IgnoreExc = FALSE
   Export = FALSE
-  MaxDepth = 100000
+  MaxDepth = 12
+  MultiKey = TRUE
 VIEW view
 INVARIANT MonitorOK
 CHECK_DEADLOCK FALSE
